@@ -282,6 +282,10 @@ func (s *script) step() {
 		if rng.Chance(2, 3) {
 			fpb = types.Siacoins(1).Div64(uint64(1000 + rng.Intn(100000)))
 		}
+		if rng.Chance(1, 5) { // more than one batch, only the first payable
+			outputs = 11 + rng.Intn(12)
+			amt = bal.Spendable.Div64(uint64(outputs)).Add(bal.Spendable.Div64(uint64(150 + rng.Intn(100))))
+		}
 		s.redistribute(outputs, amt, fpb)
 	case r < 90:
 		if s.tieRisk(true) {
@@ -316,6 +320,135 @@ func (s *script) step() {
 	}
 }
 
+// ownUnconfirmed lists the small ids of the pooled outputs that pay the wallet and are not spent in the pool.
+func (s *script) ownUnconfirmed() (ids []int) {
+	pv := s.e.pool()
+	for id, o := range pv.created {
+		if n, ok := s.e.ids[id]; ok && o.Address == s.e.addr && !pv.spent[id] {
+			ids = append(ids, n)
+		}
+	}
+	sort.Ints(ids)
+	return
+}
+
+// scenarioChain builds the state "the pool holds a parent paying the wallet and a child spending
+// that unconfirmed output, and the wallet holds no reservation for it" (the child came from
+// another instance with the same key, or the reservation was released, or the wallet was
+// restarted and re-loaded its broadcast sets), then funds with useUnconfirmed beyond the
+// confirmed funds.
+func (s *script) scenarioChain() {
+	e, rng := s.e, s.rng
+	v2 := rng.Chance(2, 3)
+	lose := rng.Intn(4) // 0 external child, 1 release, 2 restart (same manager), 3 restart (new manager)
+	viaWallet := v2 && (lose == 3 || rng.Bool())
+	bal, err := e.w.Balance()
+	must(err)
+	if bal.Spendable.IsZero() || s.tieRisk(false) {
+		return
+	}
+	amt := bal.Spendable.Div64(uint64(3 + rng.Intn(5))).Add(types.NewCurrency64(uint64(rng.Intn(9))))
+	h1 := e.nextH
+	s.fund(v2, amt, false, amt.Div64(10).Mul64(uint64(5+rng.Intn(5))), 0)
+	s.observe()
+	if e.txns[h1] == nil {
+		return
+	}
+	s.bcast(h1, viaWallet)
+	s.observe()
+	if !e.txns[h1].inPool {
+		return
+	}
+	if lose == 0 {
+		if own := s.ownUnconfirmed(); len(own) > 0 {
+			s.xspend(v2, own[rng.Intn(len(own))], []int{0, 400}[rng.Intn(2)])
+			s.observe()
+		}
+	} else {
+		bal, err = e.w.Balance()
+		must(err)
+		if s.tieRisk(true) {
+			s.stopped = "tie-cut"
+			return
+		}
+		h2 := e.nextH
+		amt2 := bal.Spendable.Add(bal.Unconfirmed.Div64(uint64(2 + rng.Intn(3)))).Add(types.NewCurrency64(1))
+		s.fund(v2, amt2, true, amt2.Div64(10).Mul64(uint64(rng.Intn(10))), 0)
+		s.observe()
+		if e.txns[h2] == nil {
+			return
+		}
+		s.bcast(h2, viaWallet)
+		s.observe()
+		switch lose {
+		case 1:
+			s.release([]int{h2})
+		case 2:
+			s.restart(false)
+		case 3:
+			s.restart(true)
+		}
+		s.observe()
+	}
+	// now fund beyond the confirmed funds: only unspent unconfirmed outputs may be used
+	for k := 0; k < 2 && s.stopped == ""; k++ {
+		bal, err = e.w.Balance()
+		must(err)
+		if s.tieRisk(true) {
+			s.stopped = "tie-cut"
+			return
+		}
+		extra := []types.Currency{types.NewCurrency64(1), bal.Unconfirmed, bal.Unconfirmed.Add(types.NewCurrency64(1)), bal.Unconfirmed.Div64(2)}[rng.Intn(4)]
+		h3 := e.nextH
+		s.fund(v2, bal.Spendable.Add(extra), true, types.ZeroCurrency, 0)
+		s.observe()
+		if e.txns[h3] != nil && rng.Chance(2, 3) {
+			s.bcast(h3, false)
+			s.observe()
+		}
+	}
+	s.kinds["scenario-chain"]++
+}
+
+// scenarioPartial asks Redistribute for more than one batch of outputs of which only the first
+// can be paid, then releases what it returned and funds the whole balance.
+func (s *script) scenarioPartial() {
+	e, rng := s.e, s.rng
+	bal, err := e.w.Balance()
+	must(err)
+	sp, err := e.w.SpendableOutputs()
+	must(err)
+	if len(sp) < 2 || s.tieRisk(false) {
+		return
+	}
+	outputs := 11 + rng.Intn(3)
+	amt := bal.Spendable.Div64(uint64(outputs)).Add(bal.Spendable.Div64(uint64(150 + rng.Intn(100))))
+	fpb := types.ZeroCurrency
+	if rng.Bool() {
+		fpb = types.Siacoins(1).Div64(uint64(100000 + rng.Intn(100000)))
+	}
+	h0 := e.nextH
+	s.redistribute(outputs, amt, fpb)
+	s.observe()
+	var hs []int
+	for h := h0; h < e.nextH; h++ {
+		if e.txns[h] != nil {
+			hs = append(hs, h)
+		}
+	}
+	if len(hs) > 0 && rng.Chance(2, 3) {
+		s.release(hs)
+		s.observe()
+		bal, err = e.w.Balance()
+		must(err)
+		if !s.tieRisk(false) {
+			s.fund(true, bal.Spendable, false, types.ZeroCurrency, 0)
+			s.observe()
+		}
+	}
+	s.kinds["scenario-partial"]++
+}
+
 func runScript(name string, seed uint64, allowShort bool, nOps int) *vh.Case {
 	rng := vh.NewRNG(seed)
 	cfg := randConfig(rng, allowShort)
@@ -335,6 +468,13 @@ func runScript(name string, seed uint64, allowShort bool, nOps int) *vh.Case {
 		c.Op(d, "ok")
 	}
 	s.observe()
+	// a fifth of the scripts start with a directed scenario (states random steps rarely reach)
+	switch rng.Intn(10) {
+	case 0, 1:
+		s.scenarioChain()
+	case 2:
+		s.scenarioPartial()
+	}
 	for i := 0; i < nOps && s.stopped == ""; i++ {
 		s.step()
 	}
